@@ -616,7 +616,10 @@ fn sink_faults(st: &mut RunStats, sink: &Sink, expected: &[Obs]) {
             st.fault("none_item");
         }
     }
-    if let Sink::Write { len, buf } = sink {
+    if let Sink::Write { len, buf, slack } = sink {
+        if *slack > 0 {
+            st.hit("buffer_with_slack_capacity");
+        }
         let m = expected.len();
         if *buf == BufKind::OwnedVec {
             if m > *len {
@@ -785,7 +788,7 @@ fn check_sink(
                 _ => unreachable!(),
             }
         },
-        (SinkOut::Buf { result, slots, log, oob, twice, set_results }, Sink::Write { buf, len }) => {
+        (SinkOut::Buf { result, slots, log, oob, twice, set_results }, Sink::Write { buf, len, .. }) => {
             let b = *len;
             let m = expected.len();
             let mut complain = |d: String| {
